@@ -71,6 +71,17 @@ fn judge(obs: &Obs, what: &str, rep: &mut Report, d: &dyn Fn() -> J) {
             if let Some(wire::Stop::Bad(i, e)) = &dec.stop {
                 rep.violations.push(viol("C20", format!("C20 nonconformant-reply {}", what), format!("exchange #{} ({:?}) was answered by something that is not a conformant reply: {}", i, obs.kinds.get(*i), e), d()));
             } else {
+                // a conformant reply carries the ids of its request: whatever the server says to a command -
+                // well-formed or not, known to it or not - starts one above that command's last id.
+                // (Only where the harness framed the input itself and therefore knows those ids.)
+                if obs.ends.len() + 1 >= obs.kinds.len() && !obs.ends.is_empty() {
+                    let sv = seq_violations(obs, &pkts, &msgs, &dec);
+                    if let Some(first) = sv.first() {
+                        rep.violations.push(viol("C20", format!("C20 reply-with-foreign-sequence-id {}", what), first.clone(), d()));
+                        return;
+                    }
+                    rep.counters.add("replies_whose_ids_were_checked", dec.spans.len().saturating_sub(2) as u64);
+                }
                 rep.counters.add("inputs_answered_conformantly", dec.resps.len().saturating_sub(2) as u64);
             }
         }
@@ -712,7 +723,7 @@ pub fn run(ctx: &Ctx) -> Report {
         let aref = &apps;
         let r = par_cases(ctx, "C20", "inside-tls", apps.len() as u64, |rng, i, rep| {
             let (what, app) = &aref[i as usize];
-            let c = super::c18::TlsCase { tls13: rng.bool(), with_cert: false, server_mode: 0, user: b"tlsuser".to_vec(), cmds: vec![], scripts: vec![], first_cut: 0, cycle: if rng.bool() { vec![] } else { vec![rng.range(1, 50) as usize] }, write_limit: usize::MAX, close_notify: rng.bool(), raw_limit: None, hs_variant: 0, app_override: Some(app.clone()), seqs: (1, 2), auth_reject: None, record_per_command: false, write_fault: None, buffer_writes: rng.bool() };
+            let c = super::c18::TlsCase { tls13: rng.bool(), with_cert: false, server_mode: 0, user: b"tlsuser".to_vec(), cmds: vec![], scripts: vec![], first_cut: 0, cycle: if rng.bool() { vec![] } else { vec![rng.range(1, 50) as usize] }, write_limit: usize::MAX, close_notify: rng.bool(), raw_limit: None, hs_variant: 0, app_override: Some(app.clone()), seqs: (1, 2), auth_reject: None, record_per_command: false, write_fault: None, buffer_writes: rng.bool(), eager_close: false };
             let o = match super::c18::run_tls(m, &c) {
                 Ok(o) => o,
                 Err(e) => {
@@ -901,7 +912,7 @@ pub fn run(ctx: &Ctx) -> Report {
         let r = par_cases(ctx, "C20", "tls-login-replies", n, |rng, i, rep| {
             let reject = i % 2 == 0;
             let seqs = if rng.bool() { (1u8, 2u8) } else { (rng.below(256) as u8, rng.below(256) as u8) };
-            let c = super::c18::TlsCase { tls13: rng.bool(), with_cert: false, server_mode: 0, user: b"tlsuser".to_vec(), cmds: vec![Cmd::ping()], scripts: vec![], first_cut: 0, cycle: if rng.bool() { vec![] } else { vec![rng.range(1, 200) as usize] }, write_limit: usize::MAX, close_notify: true, raw_limit: None, hs_variant: 0, app_override: None, seqs, auth_reject: if reject { Some(77) } else { None }, record_per_command: rng.bool(), write_fault: None, buffer_writes: rng.bool() };
+            let c = super::c18::TlsCase { tls13: rng.bool(), with_cert: false, server_mode: 0, user: b"tlsuser".to_vec(), cmds: vec![Cmd::ping()], scripts: vec![], first_cut: 0, cycle: if rng.bool() { vec![] } else { vec![rng.range(1, 200) as usize] }, write_limit: usize::MAX, close_notify: true, raw_limit: None, hs_variant: 0, app_override: None, seqs, auth_reject: if reject { Some(77) } else { None }, record_per_command: rng.bool(), write_fault: None, buffer_writes: rng.bool(), eager_close: false };
             let o = match super::c18::run_tls(m, &c) {
                 Ok(o) => o,
                 Err(e) => {
